@@ -16,8 +16,7 @@ def _class_assign(mod, cls, name):
 def build():
     out = []
     py = load("cli/python.py")
-    for name in ("SAFE_MODULES", "DANGEROUS_MODULES", "DANGEROUS_BUILTINS", "SAFE_BUILTINS", "DANGEROUS_ATTRS",
-                 "FLAGS_WITH_ARG", "SAFE_FLAGS"):
+    for name in ("SAFE_MODULES", "DANGEROUS_MODULES", "DANGEROUS_BUILTINS", "SAFE_BUILTINS", "DANGEROUS_ATTRS"):
         out.append(coq_strs("PY_" + name, const_strs(module_assign(py, name), name), f"cli/python.py {name}"))
     out.append(coq_strs("PY_REFLECTION_ATTRS",
                         const_strs(_class_assign(py, "SafetyAnalyzer", "REFLECTION_ATTRS"), "REFLECTION_ATTRS"),
@@ -30,12 +29,39 @@ def build():
         raise TieBroken("SafetyAnalyzer.visit_Name not found")
     out.append(coq_strs("PY_DANGEROUS_NAMES", pick(in_tuples(vn[0], "visit_Name"), ["__builtins__"], "dangerous names"),
                         "SafetyAnalyzer.visit_Name: names flagged on any access"))
-    # the ("-c", "-m") tuples of _find_script_path and _own_options must be the same literal
-    a = pick(in_tuples(func(py, "_find_script_path"), "_find_script_path"), ["-c"], "_find_script_path -c/-m")
-    b = pick(in_tuples(func(py, "_own_options"), "_own_options"), ["-c"], "_own_options -c/-m")
-    if sorted(a) != sorted(b):
-        raise TieBroken("_find_script_path and _own_options disagree on the -c/-m tuple")
-    out.append(coq_strs("PY_CM_FLAGS", a, "_find_script_path / _own_options: options that take the program as argument"))
+    out.append(coq_strs("PY_ESCAPE_ATTRS",
+                        const_strs(_class_assign(py, "SafetyAnalyzer", "ESCAPE_ATTRS"), "ESCAPE_ATTRS"),
+                        "cli/python.py SafetyAnalyzer.ESCAPE_ATTRS"))
+    # _KNOWN_OPTIONS = frozenset({"-" + c for c in "<letters>"} | {<long options>})
+    ko = module_assign(py, "_KNOWN_OPTIONS")
+    try:
+        u = ko.args[0]
+        comp, longs = u.left, u.right
+        assert isinstance(u.op, ast.BitOr) and isinstance(comp, ast.SetComp) and isinstance(longs, ast.Set)
+        assert ast.unparse(comp.elt) == "'-' + c" and comp.generators[0].target.id == "c" and not comp.generators[0].ifs
+        letters = comp.generators[0].iter.value
+        assert isinstance(letters, str)
+        known = ["-" + ch for ch in letters] + const_strs(longs, "_KNOWN_OPTIONS long")
+    except (AssertionError, AttributeError, IndexError):
+        raise TieBroken("_KNOWN_OPTIONS: not of the form frozenset({'-' + c for c in '...'} | {...})")
+    out.append(coq_strs("PY_KNOWN_OPTIONS", known, "cli/python.py _KNOWN_OPTIONS"))
+    out.append(coq_strs("PY_INFO_OPTIONS", const_strs(module_assign(py, "_INFO_OPTIONS"), "_INFO_OPTIONS"), "cli/python.py _INFO_OPTIONS"))
+    swa = module_assign(py, "_SHORT_WITH_ARG")
+    if not (isinstance(swa, ast.Constant) and isinstance(swa.value, str)):
+        raise TieBroken("_SHORT_WITH_ARG: not a string literal")
+    out.append(coq_strs("PY_SHORT_WITH_ARG", list(swa.value), "cli/python.py _SHORT_WITH_ARG, one entry per letter"))
+    # literal tests of _scan_options and classify that the model writes out by hand
+    so = ast.unparse(func(py, "_scan_options"))
+    for needle in ("opt in 'cm'", "token == '--check-hash-based-pycs'", "token.startswith('--')", "token == '--'",
+                   "not token.startswith('-') or token == '-'"):
+        if needle not in so:
+            raise TieBroken(f"_scan_options: expected fragment not found: {needle}")
+    cl = ast.unparse(func(py, "classify"))
+    for needle in ("mode == '-c'", "'-i' in seen or '-x' in seen", "mode == '-m'", "arg == 'calendar'",
+                   "not seen <= _KNOWN_OPTIONS", "seen & _INFO_OPTIONS", "tokens[idx] == '-'",
+                   "(cwd / 'calendar.py').exists()", "(cwd / 'calendar').is_dir()"):
+        if needle not in cl:
+            raise TieBroken(f"classify: expected fragment not found: {needle}")
     # method names of the visitor: the model dispatches on exactly these kinds
     visits = sorted(m.name[6:] for m in cls[0].body if isinstance(m, ast.FunctionDef) and m.name.startswith("visit_"))
     out.append(coq_strs("PY_VISIT_METHODS", visits, "SafetyAnalyzer: node classes with a visit_ method"))
